@@ -1147,9 +1147,19 @@ pub fn check_roundtrip(
     if parsed && &r2 != r {
         rp("eq", "-".into(), format!("parse(`{}`) != original", s), "==".into());
     }
+    // "printing is stable after one round": the printed form of the re-parsed range is a fixed point
+    // of print-parse (the first printing of a result of set operations need not be: the parser may
+    // normalise it, e.g. drop a repeated alternative; for ranges obtained from parse the clause `eq`
+    // above already ties the two printings together)
     let s2 = r2.to_string();
-    if s2 != s {
-        rp("fixpoint", "-".into(), format!("`{}` -> `{}`", s, s2), "stable".into());
+    match guarded(|| Range::parse(&s2)) {
+        Ok(Ok(r3)) => {
+            let s3 = r3.to_string();
+            if s3 != s2 {
+                rp("fixpoint", "-".into(), format!("`{}` -> `{}` -> `{}`", s, s2, s3), "stable after one round".into());
+            }
+        }
+        _ => rp("fixpoint", "-".into(), format!("`{}` -> `{}` does not parse", s, s2), "stable after one round".into()),
     }
     match serde_json::to_string(r) {
         Ok(js) => {
